@@ -85,8 +85,10 @@ Definition known (c : case) : bool :=
   any (fun e => match e with EToJSON _ => true | _ => false end)
   && existsb (fun d => existsb (fun im => snd im) (ed_imports d)) ds
   && any (fun e => match e with EOpen _ _ | ESecretCipher _ => true | _ => false end).
-Definition spec_fail_new (c : case) : bool := spec_fail c && negb (known c).
-Definition spec_fail_known (c : case) : bool := spec_fail c && known c.
+(* a failure counts as the RECORDED finding only when the model - which reproduces that finding - predicts exactly what the
+   implementation did on this case; any further deviation makes it a new failure with this input as the replay *)
+Definition spec_fail_new (c : case) : bool := spec_fail c && negb (known c && negb (mismatch c)).
+Definition spec_fail_known (c : case) : bool := spec_fail c && known c && negb (mismatch c).
 
 (* non-trivial: check really knows less than open somewhere, or a provider / ciphertext is involved *)
 Definition nontrivial (c : case) : bool :=
